@@ -668,10 +668,22 @@ Theorem mark_preserved sync s e k :
   mem_bytes k (rx_marked s) = true -> ends_owner k s e = false ->
   mem_bytes k (rx_marked (rx_step sync s e)) = true.
 Proof.
-  intros M N. destruct e as [keys|n|n]; cbn [rx_step ends_owner] in *.
+  intros M N. destruct e as [keys|n|n|keys]; cbn [rx_step ends_owner] in *.
   - destruct sync; cbn [rx_marked]; [rewrite mem_app, M; apply orb_true_r | exact M].
   - destruct (nth_error (rx_pending s) n); cbn [rx_marked]; [rewrite mem_app, M; apply orb_true_r | exact M].
   - destruct (nth_error (rx_pending s) n); cbn [rx_marked]; [|exact M]. rewrite mem_unmark, M, N. reflexivity.
+  - destruct sync; cbn [rx_marked]; [rewrite mem_app, M; apply orb_true_r | exact M].
+Qed.
+
+(* the keys a version-0 transfer brings in are marked by its goroutine like any other: a later version-1 OFFER of such a key
+   is answered "in progress" (mixed versions), while a later version-0 OFFER is not filtered by the marks at all *)
+Theorem v0_transfer_marks_for_v1 k :
+  rx_accepted (rx_run false [EvOfferV0 [k]; EvGoroutineRuns 0; EvOffer [k]]) = [[]; [k]] /\
+  rx_accepted (rx_run false [EvOffer [k]; EvGoroutineRuns 0; EvOfferV0 [k]]) = [[k]; [k]] /\
+  rx_accepted (rx_run false [EvOfferV0 [k]; EvGoroutineRuns 0; EvOfferV0 [k]]) = [[k]; [k]].
+Proof.
+  unfold rx_run. cbn [fold_left rx_step rx_init rx_marked rx_pending rx_accepted filter mem_bytes negb app nth_error].
+  rewrite bytes_eqb_refl. cbn [orb negb filter]. repeat split; reflexivity.
 Qed.
 
 (* an OFFER that contains a marked key does not accept it *)
